@@ -6,6 +6,7 @@ types and containers, and the equality of decoding, are carried by the correspon
 `str(float)` / `float(str)` of CPython are a hypothesis (`FloatRoundTrip`), not modelled.
 -/
 import Spp.Model.XmlWrite
+import Spp.Lemmas.Cal
 namespace Spp.C09
 open Spp
 
@@ -133,5 +134,62 @@ theorem polynomial_roundtrip (hI : IntRoundTrip) (hF : FloatRoundTrip) (u : Opti
     have := mapM_roundtrip (writeTerm u) loadTerm ts
       (fun t ht b hb => (term_roundtrip hI hF u t (hts t ht) b hb).1) terms hm
     simp only [loadPoly, he, this, bind, Except.bind, pure, Except.pure]
+
+theorem mapM_all {α β} (w : α → LoadM β) (P : β → Prop) (l : List α)
+    (h : ∀ a ∈ l, ∀ b, w a = .ok b → P b) (bs : List β) (hw : l.mapM w = .ok bs) : ∀ b ∈ bs, P b := by
+  induction l generalizing bs with
+  | nil => simp [pure, Except.pure] at hw; subst hw; simp
+  | cons a l ih =>
+    simp only [List.mapM_cons, bind, Except.bind, pure, Except.pure] at hw
+    cases ha : w a with
+    | error e => simp [ha] at hw
+    | ok b =>
+      simp only [ha] at hw
+      cases hl : l.mapM w with
+      | error e => simp [hl] at hw
+      | ok bs' =>
+        simp only [hl] at hw
+        injection hw with hw; subst hw
+        intro x hx
+        simp at hx
+        rcases hx with rfl | hx
+        · exact h a (by simp) _ ha
+        · exact ih (fun a' ha' => h a' (by simp [ha'])) bs' hl x hx
+
+theorem splinepoint_roundtrip (hF : FloatRoundTrip) (u : Option String) (p : SplinePoint) (b : XmlNode)
+    (hw : writeSplinePoint u p = .ok b) : loadSplinePoint b = .ok p ∧ b.isElem = true := by
+  simp only [writeSplinePoint, bind, Except.bind, pure, Except.pure] at hw
+  cases hr : showFloat (.fin p.raw) with
+  | error e => simp [hr] at hw
+  | ok rs =>
+    cases hc : showFloat (.fin p.cal) with
+    | error e => simp [hr, hc] at hw
+    | ok cs =>
+      simp only [hr, hc] at hw
+      injection hw with hw; subst hw
+      refine ⟨?_, rfl⟩
+      simp [loadSplinePoint, mkEl, XmlNode.attr!, XmlNode.attr?, XmlNode.attrs, hF p.raw rs hr, hF p.cal cs hc, bind,
+        Except.bind, pure, Except.pure]
+
+/-- Spline calibrators: points (in their stored, strictly increasing order), order and extrapolate flag are preserved. -/
+theorem spline_roundtrip (hI : IntRoundTrip) (hF : FloatRoundTrip) (u : Option String) (s : Spline)
+    (hs : StrictSorted s.points) (ho : s.order ≤ 1) (x : XmlNode) (hw : writeCalibrator u (.spline s) = .ok x) :
+    loadSpline x = .ok (.spline s) := by
+  simp only [writeCalibrator, bind, Except.bind, pure, Except.pure] at hw
+  cases hm : s.points.mapM (writeSplinePoint u) with
+  | error e => simp [hm] at hw
+  | ok pts =>
+    simp only [hm] at hw
+    injection hw with hw; subst hw
+    have hel := mapM_all (writeSplinePoint u) (fun b => b.isElem = true) s.points
+      (fun p _ b hb => (splinepoint_roundtrip hF u p b hb).2) pts hm
+    have he : (mkEl u "SplineCalibrator" [("order", showInt s.order), ("extrapolate", pyBool s.extrapolate)] pts).elems = pts := by
+      simp only [mkEl, XmlNode.elems, XmlNode.kids]
+      rw [List.filter_eq_self]; exact hel
+    have hrt := mapM_roundtrip (writeSplinePoint u) loadSplinePoint s.points
+      (fun p _ b hb => (splinepoint_roundtrip hF u p b hb).1) pts hm
+    have ho' : ¬ s.order > 1 := by omega
+    simp only [loadSpline, he, hrt, bind, Except.bind, pure, Except.pure]
+    simp [mkEl, XmlNode.attr?, XmlNode.attrs, boolAttr, isTrueWord_pyBool, hI s.order, ho', sortPoints_of_sorted _ hs]
 
 end Spp.C09
